@@ -36,6 +36,12 @@ struct Becquerel : UnitInverseT<Seconds>, BecquerelLabel<void> {
 };
 constexpr auto becquerel = QuantityMaker<Becquerel>{};
 
+namespace detail {
+// `Becquerel` and `Hertz` are distinct units with the same dimension, magnitude, and origin.
+template <>
+struct UnitOrderTiebreaker<Becquerel> : std::integral_constant<int, 1> {};
+}  // namespace detail
+
 namespace symbols {
 constexpr auto Bq = SymbolFor<Becquerel>{};
 }
